@@ -68,6 +68,7 @@ class AIM(Mechanism):
         answers = { cl : data.project(cl).datavector() for cl in candidates }
 
         oneway = [cl for cl in candidates if len(cl) == 1]
+        rounds = max(rounds, len(oneway)) # the initial one-way measurements alone spend 0.9*rho*len(oneway)/rounds
 
         sigma = np.sqrt(rounds / (2*0.9*self.rho))
         epsilon = np.sqrt(8*0.1*self.rho/rounds)
